@@ -54,6 +54,80 @@ def out(obj):
     print(json.dumps(obj, default=str))
 
 
+# ---- generic purity probe (C20): module-level state before/after a call history, and the same call twice -----------
+def _fp(v, depth, memo):
+    if v is None or isinstance(v, (bool, int, str, bytes, float)):
+        return repr(v) if not isinstance(v, int) or isinstance(v, bool) else v
+    k = id(v)
+    if k in memo:
+        return memo[k]
+    memo[k] = "<cycle>"
+    r = None
+    if depth > 6:
+        r = "<deep>"
+    elif isinstance(v, (tuple, list)):
+        r = (type(v).__name__, tuple(_fp(x, depth + 1, memo) for x in v[:5000]), len(v))
+    elif isinstance(v, (set, frozenset)):
+        r = (type(v).__name__, len(v))
+    elif isinstance(v, dict):
+        try:
+            r = ("dict", tuple(sorted((repr(a)[:80], repr(_fp(b, depth + 1, memo))[:200]) for a, b in list(v.items())[:2000])), len(v))
+        except Exception:
+            r = ("dict", len(v))
+    elif isinstance(v, type):
+        if v.__module__.startswith("py_ecc"):
+            r = ("class", v.__name__, tuple(sorted((a, repr(_fp(b, depth + 1, memo))[:300]) for a, b in vars(v).items()
+                                                     if not a.startswith("__") and not callable(b)
+                                                     and not isinstance(b, (classmethod, staticmethod, property)) and type(b).__name__ != "cached_property")))
+    elif hasattr(v, "coeffs") and type(v).__module__.startswith("py_ecc"):
+        r = (type(v).__name__, tuple(int(c) for c in v.coeffs))
+    elif hasattr(v, "n") and type(v).__module__.startswith("py_ecc"):
+        r = (type(v).__name__, int(v.n))
+    memo[k] = r
+    return r
+
+
+def module_state():
+    """fingerprint of every module-level name and class-level data attribute of the loaded py_ecc modules"""
+    out_, memo = {}, {}
+    for name, mod in sorted(sys.modules.items()):
+        if mod is None or not (name == "py_ecc" or name.startswith("py_ecc.")):
+            continue
+        for k, v in list(vars(mod).items()):
+            if k.startswith("__"):
+                continue
+            f = _fp(v, 0, memo)
+            if f is not None:
+                out_[f"{name}.{k}"] = f
+    return out_
+
+
+def purity_probe(fam, fn, inp):
+    """runs the family's check of one input twice; reports a change of module-level state or a verdict that depends on history"""
+    s0 = module_state()
+    try:
+        bad1 = fam.check(fn, inp)
+    except Exception:
+        bad1 = dict(why="harness exception", observed=traceback.format_exc()[-800:])
+    if bad1:
+        return bad1
+    s1 = module_state()
+    changed = [k for k in sorted(set(s0) | set(s1)) if s0.get(k) != s1.get(k)]
+    if changed:
+        k = changed[0]
+        return dict(why="module-level state of py_ecc changed during the call history (constants / class attributes must not be written)",
+                    changed=changed[:8], before=repr(s0.get(k))[:300], after=repr(s1.get(k))[:300])
+    try:
+        bad2 = fam.check(fn, inp)
+    except Exception:
+        bad2 = dict(why="harness exception", observed=traceback.format_exc()[-800:])
+    if bad2:
+        bad2 = dict(bad2)
+        bad2["why"] = "history dependence: the same checks pass the first time and fail when repeated in the same process: " + str(bad2.get("why"))
+        return bad2
+    return None
+
+
 def cmd_refute(hint, seed, budget_s=240):
     fn = hint["function"]
     cls = find_family(fn)
@@ -66,14 +140,20 @@ def cmd_refute(hint, seed, budget_s=240):
     rng = random.Random(seed)
     t0 = time.time()
     tried = 0
+    probe = hint.get("property") == "C20"
     for inp in fam.gen(fn, rng, hint):
         tried += 1
-        try:
-            bad = fam.check(fn, inp)
-        except Exception:
-            bad = dict(why="harness exception", observed=traceback.format_exc()[-800:])
-        if bad:
-            return dict(found=True, function=fn, family=cls.__name__, input=inp, tried=tried, **bad)
+        if probe:
+            bad = purity_probe(fam, fn, inp)
+            if bad:
+                return dict(found=True, function=fn, family=cls.__name__, input=dict(purity_probe=True, inner=inp), tried=tried, **bad)
+        else:
+            try:
+                bad = fam.check(fn, inp)
+            except Exception:
+                bad = dict(why="harness exception", observed=traceback.format_exc()[-800:])
+            if bad:
+                return dict(found=True, function=fn, family=cls.__name__, input=inp, tried=tried, **bad)
         if time.time() - t0 > budget_s:
             break
     return dict(found=False, tried=tried, function=fn, family=cls.__name__)
@@ -104,7 +184,10 @@ def cmd_replay(doc):
     cls = find_family(fn)
     if cls is None:
         return dict(error=f"no family for {fn}")
-    bad = cls().check(fn, doc["input"])
+    if doc.get("input", {}).get("purity_probe"):
+        bad = purity_probe(cls(), fn, doc["input"]["inner"])
+    else:
+        bad = cls().check(fn, doc["input"])
     if bad:
         return dict(fails=True, function=fn, input=doc["input"], **bad)
     return dict(fails=False, function=fn)
